@@ -429,6 +429,10 @@ class Dex:
                    "as_callable": bool(rng.randint(6) == 0), "bad_variant": bool(rng.randint(40) == 0),
                    "int_targets": int_targets,
                    "setup": ["ctor", "ctor", "assign", "copy-assign"][rng.randint(4)],
+                   # how the pairs reach the operator: the (n_matings, 2) matings population / the same as a transposed
+                   # (non-C-ordered) view / a merged population plus an index array `parents=` (the GA-style route), in which a
+                   # row may name one individual twice
+                   "route": ["matings", "matings", "matings-view", "parents", "parents-self"][rng.randint(5)],
                    "xl": xl, "xu": xu, "Xt": Xt, "V": V, "seed": int(rng.randint(2**31 - 1))}
 
     @staticmethod
@@ -442,10 +446,18 @@ class Dex:
         from pymoo.core.population import Population
         from pymoode.operators.dex import DEX
         from pymoode.operators.variant import DifferentialVariant
-        rec = Record("dex", {k: case.get(k) for k in ("variant", "CR", "alo", "as_callable", "bad_variant", "seed", "int_targets", "setup")},
+        rec = Record("dex", {k: case.get(k) for k in ("variant", "CR", "alo", "as_callable", "bad_variant", "seed", "int_targets", "setup", "route")},
                      {k: case[k] for k in ("xl", "xu", "Xt", "V")})
         Xt = np.array(case["Xt"], dtype=float, copy=True)
         V = np.array(case["V"], dtype=float, copy=True)
+        route = case.get("route") or "matings"
+        if route == "parents-self" and len(Xt):
+            # self-matings: some rows pair an individual with itself (the trial then equals it, whatever the mask)
+            k_ = max(1, len(Xt) // 2)
+            V[:k_] = Xt[:k_]
+            rec.inp["V"] = V.copy()
+        if route != "matings":
+            rec.tags.add("route:" + route)
         pop = Population.new("X", Xt.astype(np.int64) if case.get("int_targets") else Xt.copy())
         if case.get("int_targets"):
             rec.tags.add("int-dtype-targets")
@@ -472,14 +484,28 @@ class Dex:
                     op.CR = case["CR"]
                     op.at_least_once = case["alo"]
                     rec.tags.add("setup:" + setup)
-                matings = DifferentialVariant.merge_columnwise(pop, mut)
-                rec.out["U"] = np.array(op.do(prob, matings).get("X"), dtype=float)
+                if route == "matings-view" and not case.get("int_targets"):
+                    matings = np.vstack([pop, mut]).T.view(Population)        # (n_matings, 2), Fortran-ordered
+                    rec.out["U"] = np.array(op.do(prob, matings).get("X"), dtype=float)
+                elif route in ("parents", "parents-self") and not case.get("int_targets"):
+                    n_ = len(pop)
+                    if route == "parents-self":
+                        k_ = max(1, n_ // 2)
+                        merged = Population.merge(pop, mut[k_:]) if k_ < n_ else pop
+                        idx_ = np.column_stack([np.arange(n_), np.concatenate([np.arange(k_), n_ + np.arange(n_ - k_)])])
+                    else:
+                        merged = Population.merge(pop, mut)
+                        idx_ = np.column_stack([np.arange(n_), n_ + np.arange(n_)])
+                    rec.out["U"] = np.array(op.do(prob, merged, parents=idx_).get("X"), dtype=float)
+                else:
+                    matings = DifferentialVariant.merge_columnwise(pop, mut)
+                    rec.out["U"] = np.array(op.do(prob, matings).get("X"), dtype=float)
             except Exception as e:
                 rec.err = "%s: %s" % (type(e).__name__, e)
         _finish(rec, R, replay)
         if not bits_equal(pop.get("X"), Xt):
             rec.frames.append("target vectors modified by crossover")
-        if not bits_equal(mut.get("X"), V):
+        if not bits_equal(mut.get("X"), V) and route != "parents-self":
             rec.frames.append("mutant vectors modified by crossover")
         rec.tags.add("variant:" + case["variant"])
         rec.tags.add("CR:" + ("0" if case["CR"] == 0 else "1" if case["CR"] == 1 else "mid"))
@@ -782,6 +808,10 @@ class Des:
                    # how the operator came to its variant: built with it / built with another one and re-configured
                    # (`algorithm.mating.selection.variant = ...`) / deep-copied from such a template and re-configured
                    "setup": ["ctor", "ctor", "assign", "copy-assign"][rng.randint(4)],
+                   # history of the operator object: none / used just before on another population of the same size with
+                   # other ranks, in the same generation of the same algorithm / used before and the matrix it returned was
+                   # then edited in place by the caller
+                   "hist": ["none", "none", "other-ranks", "scribbled"][rng.randint(4)],
                    "via": ["_do", "do"][rng.randint(2)], "seed": int(rng.randint(2**31 - 1))}
 
     @staticmethod
@@ -828,10 +858,32 @@ class Des:
                         sel.variant = case["kind"]
                         rec.tags.add("setup:" + case["setup"])
                     n_sel = case.get("n_sel", case["n_pop"])
+
+                    class _Algo:        # what the operators see of the algorithm that calls them
+                        n_iter = 3
+                        n_gen = 3
+                    algo_ = _Algo()
+                    hist = case.get("hist", "none")
+                    if hist != "none":
+                        st_ = np.random.get_state()
+                        R.paused = True
+                        try:
+                            rk2 = None if case["ranks"] is None else list(reversed(case["ranks"]))
+                            pop2 = Des.make_pop(case["n_pop"], rk2, case.get("crowd_attr"))
+                            if case["via"] == "_do":
+                                P0 = sel._do(None, pop2 if hist == "other-ranks" else pop, n_sel, case["n_par"], algorithm=algo_)
+                            else:
+                                P0 = sel.do(None, pop2 if hist == "other-ranks" else pop, n_sel, case["n_par"], to_pop=False, algorithm=algo_)
+                            if hist == "scribbled" and isinstance(P0, np.ndarray) and P0.size:
+                                P0[...] = P0[::-1, ::-1].copy()         # the caller re-arranges what it was given, in place
+                        finally:
+                            R.paused = False
+                            np.random.set_state(st_)
+                        rec.tags.add("history:" + hist)
                     if case["via"] == "_do":
-                        P = sel._do(None, pop, n_sel, case["n_par"])
+                        P = sel._do(None, pop, n_sel, case["n_par"], algorithm=algo_)
                     else:
-                        P = sel.do(None, pop, n_sel, case["n_par"], to_pop=False)
+                        P = sel.do(None, pop, n_sel, case["n_par"], to_pop=False, algorithm=algo_)
                     if any("Unknown selection" in str(x.message) for x in w):
                         rec.frames.append("selection variant not recognised")
                 rec.out["P"] = np.array(P, dtype=int)
@@ -939,6 +991,8 @@ class Variant:
                    "entry": ["variant", "algorithm"][rng.randint(2)], "warm": bool(rng.randint(3) == 0),
                    # which algorithm class builds the mating when the entry point is Algorithm._infill
                    "algo_cls": ["GDE3", "NSDE", "DE", "NSDER", "GDE3MNN"][rng.randint(5)],
+                   # the object that is used is a copy of the one that was built (minimize() deep-copies the algorithm)
+                   "copied": ["", "", "deepcopy", "pickle"][rng.randint(4)],
                    "xl": xl, "xu": xu, "PX": PX, "seed": int(rng.randint(2**31 - 1))}
 
     @staticmethod
@@ -952,7 +1006,7 @@ class Variant:
         from pymoo.core.population import Population
         from pymoo.operators.mutation.pm import PM
         from pymoode.operators.variant import DifferentialVariant
-        cfgk = ("sel", "y", "cross", "CR", "F", "gamma", "repair", "pm", "ranks", "entry", "warm", "seed", "algo_cls")
+        cfgk = ("sel", "y", "cross", "CR", "F", "gamma", "repair", "pm", "ranks", "entry", "warm", "seed", "algo_cls", "copied")
         rec = Record("variant", {k: case.get(k) for k in cfgk}, {k: case[k] for k in ("xl", "xu", "PX")})
         PX = np.array(case["PX"], dtype=float, copy=True)
         n, d = PX.shape
@@ -975,8 +1029,18 @@ class Variant:
         np.random.seed(case["seed"])
         with Recorder("replay" if replay is not None else "record", replay) as R:
             try:
+                def _copy(o):
+                    if case.get("copied") == "deepcopy":
+                        import copy as _c
+                        rec.tags.add("copied:deepcopy")
+                        return _c.deepcopy(o)
+                    if case.get("copied") == "pickle":
+                        import pickle as _p
+                        rec.tags.add("copied:pickle")
+                        return _p.loads(_p.dumps(o))
+                    return o
                 if case["entry"] == "variant":
-                    mating = DifferentialVariant(**kw)
+                    mating = _copy(DifferentialVariant(**kw))
                     algo = None
                 else:
                     # the path Algorithm.ask() takes: algorithm._infill -> mating.do
@@ -996,6 +1060,7 @@ class Variant:
                         algo = _alg.DE(pop_size=n, **kwd)
                     else:
                         algo = getattr(_alg, cls_)(pop_size=n, **kw)
+                    algo = _copy(algo)
                     algo.setup(prob, seed=case["seed"], verbose=False)
                     algo.pop = pop
                     algo.is_initialized = True
